@@ -35,7 +35,7 @@ def size_kind(p):
 
 
 def classify_iter(iter_node, norm):
-    """kind, extra:  'N'/'M'/'d' for range(size); 'N+final' for list(range(N))+[-1];
+    """kind, extra:  'N'/'M'/'d' for range(size); 'N+final' for list(range(N))+[-1]; 'final+N' for [-1]+list(range(N));
     'constraints:<grid>[+<grid>]' for loops over stage._constraints[...]; 'range' / 'other'."""
     sc = getattr(norm, "scope", None)
     if isinstance(iter_node, ast.Name) and sc is not None:
@@ -54,6 +54,11 @@ def classify_iter(iter_node, norm):
         if rb is not None and rb[0] == Poly.const(0) and size_kind(rb[1]) == "N" and isinstance(iter_node.right, ast.List) \
                 and len(iter_node.right.elts) == 1 and norm.poly(iter_node.right.elts[0]) == Poly.const(-1):
             return "N+final", None
+        # [-1] + list(range(self.N)): the final node first
+        rb = range_bound(iter_node.right, norm)
+        if rb is not None and rb[0] == Poly.const(0) and size_kind(rb[1]) == "N" and isinstance(iter_node.left, ast.List) \
+                and len(iter_node.left.elts) == 1 and norm.poly(iter_node.left.elts[0]) == Poly.const(-1):
+            return "final+N", None
         grids = constraint_grids(iter_node)
         if grids:
             return "constraints", grids
